@@ -10,6 +10,21 @@
 //!  * correspondence: the canonical operation list of the trace equals the operation list the
 //!    Lean model (`StoreCrash.opsOf`, the object of theorem `crash_recover`) emits for the same
 //!    history — in particular the order link -> manifest sync -> trash that the proof uses.
+//!
+//! Second crash during recovery: for a sample of the crash images the reopen itself runs under
+//! `strace`; its operation list is compared with `StoreFault.recoverOps` of the model's image of
+//! the same crash point (`crash recover`), every prefix of it is replayed onto the image (a crash
+//! before each mutating call of the RECOVERY, both persistence models again), reopened once more
+//! (traced: `crash recover2`) and read back against the same expectations.
+//!
+//! Faults: one system call of the history fails (`strace -e inject=`).  Oracle: the error is
+//! surfaced, the write in progress is not acknowledged, the store reopens with every acknowledged
+//! write — after the process exit and after a power loss on top of it (model b image of the
+//! fault run's own trace).  Correspondence (`crash fault` / `crash faultx`): the model's
+//! `StoreFault.faultOps` / `faultAcked` / `surfaced` for a failure of the same call of the same
+//! history: kind of the call, surfaced or absorbed, acknowledgements the client got, the calls
+//! issued after the failed one (the log's BufWriter is flushed again when the store is dropped),
+//! batches found by the reopen under both models.
 use crate::common::*;
 use crate::fstrace::{self, FsOp, SimFs};
 use crate::store::*;
@@ -129,6 +144,12 @@ pub fn child_run(rest: &[String]) -> ! {
             Err(e) => {
                 mark(format!("MARK e {}\n", k));
                 writeln!(report, "error {} {}", k, e).unwrap();
+                // the client of the model stops at the first error (`KeyValueStore::poison` is a
+                // no-op: the store itself would go on); BLUE_C02_CONTINUE=1 explores a client that
+                // goes on regardless (exploration only, not part of the check)
+                if std::env::var("BLUE_C02_CONTINUE").is_ok() && sim.kvs.is_some() {
+                    continue;
+                }
                 break;
             }
         }
@@ -178,7 +199,10 @@ pub fn child_run(rest: &[String]) -> ! {
                         b
                     };
                     let drops = batches(&removed) != batches(&added);
-                    format!("compact in={} out={} gc={}", removed.join(";"), added.join(";"), (chosen[0].1.upper_level == lsmtk::NUM_LEVELS - 1 && drops) as u8)
+                    // `nin`: the number of files the selector chose.  An output that has the content
+                    // (hence the name) of one of the inputs is neither removed nor added: the link
+                    // answers AlreadyExists and the file stays (outside the model: `validCompact`)
+                    format!("compact in={} out={} gc={} nin={}", removed.join(";"), added.join(";"), (chosen[0].1.upper_level == lsmtk::NUM_LEVELS - 1 && drops) as u8, chosen[0].1.inputs.len())
                 }
             }
             Op::Reopen => format!("reopen out={}", added.join(";")),
@@ -200,8 +224,16 @@ pub fn child_reopen(rest: &[String]) -> ! {
         let sim = Sim::open(root, &cfg)?;
         let mut out = String::new();
         // known finding D-9: recover() cannot order files that overlap in key and timestamp range
-        if sim.dump().map(|d| crate::c01::d9_trigger(&d)).unwrap_or(false) {
+        let dump = sim.dump();
+        if dump.as_ref().map(|d| crate::c01::d9_trigger(d)).unwrap_or(false) {
             eprintln!("D9TRIGGER");
+        }
+        // number of write batches the store holds: distinct sequence numbers over all entries
+        if let Ok(d) = &dump {
+            let mut ts: Vec<u64> = d.all_entries().iter().map(|e| e.1).collect();
+            ts.sort();
+            ts.dedup();
+            eprintln!("BATCHES {}", ts.len());
         }
         for k in ALPHABET[..nkeys].iter() {
             match sim.get(k)? {
@@ -358,6 +390,10 @@ fn model_clients(report: &str) -> Option<(String, Vec<String>)> {
                 if p.iter().any(|x| *x == "gc=1") || ins.is_empty() || outs.is_empty() {
                     return None; // GC drops entries: outside the batch-granular model (C05's business)
                 }
+                let nin: Option<usize> = p.iter().find_map(|x| x.strip_prefix("nin=")).and_then(|x| x.parse().ok());
+                if nin != Some(ins.split(';').count()) {
+                    return None; // an output is one of the inputs again (AlreadyExists on its link)
+                }
                 toks.push(format!("compact:{}:{}", ins, outs));
             }
             "reopen" => toks.push("reopen".to_string()),
@@ -376,21 +412,34 @@ fn model_clients(report: &str) -> Option<(String, Vec<String>)> {
 ///    rollover protocol (C13's model), invisible at this level;
 ///  * the lock file, reads, closes.
 fn canonical(ops: &[FsOp]) -> Vec<String> {
-    let mut out: Vec<(String, Option<String>)> = vec![];
+    canonical_idx(ops, true).into_iter().map(|t| t.0).collect()
+}
+
+/// the canonical list with, per token, the index of the trace operation it stands for.
+/// `need_opened`: skip everything before the `opened` marker (the initial open of a history run is
+/// the model's initial state); a traced reopen of a crash image has no markers and starts at once.
+/// Injected failures appear as `FAULT` tokens.
+fn canonical_idx(ops: &[FsOp], need_opened: bool) -> Vec<(String, usize)> {
+    let mut out: Vec<(String, Option<String>, usize)> = vec![];
     let mut dirty_logs: BTreeMap<String, bool> = BTreeMap::new();
-    let mut started = false;
-    for op in ops {
+    let mut created: std::collections::BTreeSet<String> = Default::default();
+    let mut started = !need_opened;
+    for (ri, op) in ops.iter().enumerate() {
         if let FsOp::Mark { text } = op {
             if text == "opened" {
                 started = true;
             }
             if text.starts_with("a ") && started {
-                out.push((format!("ack:{}", &text[2..]), None));
+                out.push((format!("ack:{}", &text[2..]), None, ri));
             }
             continue;
         }
         if !started {
             continue; // the initial open is the model's initial state
+        }
+        if let FsOp::Fault { .. } = op {
+            out.push(("FAULT".to_string(), None, ri));
+            continue;
         }
         let Some(c) = fstrace::classify(op) else { continue };
         let path = match op {
@@ -402,16 +451,29 @@ fn canonical(ops: &[FsOp]) -> Vec<String> {
             "tmpWrite" => {}
             "logAppend" => {
                 dirty_logs.insert(path.clone().unwrap_or_default(), true);
-                out.push((c, path));
+                out.push((c, path, ri));
             }
             "logSync" => {
                 let p = path.clone().unwrap_or_default();
                 if dirty_logs.get(&p).copied().unwrap_or(false) {
                     dirty_logs.insert(p, false);
-                    out.push((c, path));
+                    out.push((c, path, ri));
                 }
             }
-            _ => out.push((c, path)),
+            "tmpCreate" => {
+                created.insert(path.clone().unwrap_or_default());
+                out.push((c, path, ri));
+            }
+            "tmpUnlink" => {
+                // the removal of a temporary this process did not create — a leftover of an
+                // incarnation that died (`recover_one` removes tmp/log.N.sst if it exists,
+                // `compaction_setup` clears a scratch directory of the same name) — is a frame
+                // operation on a file the model does not keep apart from the one created next
+                if created.contains(path.as_deref().unwrap_or("")) {
+                    out.push((c, path, ri));
+                }
+            }
+            _ => out.push((c, path, ri)),
         }
     }
     // A temporary that is created but never synced or linked (recover_one builds tmp/log.N.sst
@@ -425,6 +487,11 @@ fn canonical(ops: &[FsOp]) -> Vec<String> {
             let p = out[i].1.clone().unwrap_or_default();
             let mut used = false;
             for j in i + 1..out.len() {
+                if out[j].0 == "FAULT" {
+                    // the run was cut short by a failure: what would have followed is unknown
+                    used = true;
+                    break;
+                }
                 if out[j].1.as_deref() == Some(&p) {
                     if out[j].0 == "tmpSync" || out[j].0 == "link" {
                         used = true;
@@ -443,8 +510,140 @@ fn canonical(ops: &[FsOp]) -> Vec<String> {
             }
         }
     }
-    out.into_iter().zip(keep).filter(|(_, k)| *k).map(|(t, _)| t.0).collect()
+    out.into_iter().zip(keep).filter(|(_, k)| *k).map(|(t, _)| (t.0, t.2)).collect()
 }
+
+/// acknowledgements of non-write operations are not model events
+fn model_tokens(canon: Vec<(String, usize)>, write_idx: &[usize]) -> Vec<(String, usize)> {
+    canon
+        .into_iter()
+        .filter_map(|(t, ri)| match t.strip_prefix("ack:") {
+            Some(k) => {
+                let k: usize = k.parse().ok()?;
+                if write_idx.contains(&k) {
+                    Some(("ack".to_string(), ri))
+                } else {
+                    None
+                }
+            }
+            None => Some((t, ri)),
+        })
+        .collect()
+}
+
+fn join_toks(v: &[String]) -> String {
+    if v.is_empty() {
+        "-".to_string()
+    } else {
+        v.join(",")
+    }
+}
+
+/// run the jobs on a few threads (every job spawns processes and waits for them); results in job order
+fn par_map<T: Send, R: Send>(jobs: Vec<T>, f: impl Fn(usize, T) -> R + Sync) -> Vec<R> {
+    let n = jobs.len();
+    let workers = std::thread::available_parallelism().map(|x| x.get()).unwrap_or(2).clamp(1, 6).min(n.max(1));
+    let queue: std::sync::Mutex<Vec<Option<T>>> = std::sync::Mutex::new(jobs.into_iter().map(Some).collect());
+    let next = std::sync::atomic::AtomicUsize::new(0);
+    let out: std::sync::Mutex<Vec<Option<R>>> = std::sync::Mutex::new((0..n).map(|_| None).collect());
+    std::thread::scope(|sc| {
+        for _ in 0..workers {
+            sc.spawn(|| loop {
+                let i = next.fetch_add(1, std::sync::atomic::Ordering::SeqCst);
+                if i >= n {
+                    break;
+                }
+                let job = queue.lock().unwrap()[i].take().unwrap();
+                let r = f(i, job);
+                out.lock().unwrap()[i] = Some(r);
+            });
+        }
+    });
+    out.into_inner().unwrap().into_iter().map(|x| x.unwrap()).collect()
+}
+
+struct Reopened {
+    /// the image could not be written (machinery)
+    mach: Option<String>,
+    code: Option<i32>,
+    text: String,
+    d9: bool,
+    batches: Option<usize>,
+    /// the reopen's own file-system operations (traced reopen only)
+    ops: Vec<FsOp>,
+}
+
+/// reopen an image in a fresh process (under strace when `trace` names a file for the log) and
+/// read everything back
+fn reopen_image(exe: &std::path::Path, img: &str, cfg: &Cfg, nkeys: usize, trace: Option<&str>) -> Reopened {
+    let out = match trace {
+        None => std::process::Command::new(exe).args(["C02reopen", img, &cfg_arg(cfg), &nkeys.to_string()]).output(),
+        Some(t) => std::process::Command::new("strace")
+            .args(["-f", "-o", t, "-s", "4000000", "-xx", "-y", "-e", TRACE_SET])
+            .arg(exe)
+            .args(["C02reopen", img, &cfg_arg(cfg), &nkeys.to_string()])
+            .output(),
+    };
+    let (code, text, err) = match out {
+        Ok(o) => (o.status.code(), String::from_utf8_lossy(&o.stdout).to_string(), String::from_utf8_lossy(&o.stderr).to_string()),
+        Err(e) => (None, format!("spawn: {}", e), String::new()),
+    };
+    let batches = err.lines().find_map(|l| l.strip_prefix("BATCHES ")).and_then(|x| x.trim().parse().ok());
+    let ops = match trace {
+        Some(t) => {
+            let txt = std::fs::read_to_string(t).unwrap_or_default();
+            let _ = std::fs::remove_file(t);
+            let mut ops = fstrace::parse(&txt, img, "/nonexistent-marker");
+            normalize_orphan_renames(&mut ops);
+            ops
+        }
+        None => vec![],
+    };
+    Reopened { mach: None, code, text, d9: err.contains("D9TRIGGER"), batches, ops }
+}
+
+/// write the image of `fs` under persistence model `model_b` to `dir`, reopen it, remove it
+fn reopen_simfs(exe: &std::path::Path, fs: &SimFs, model_b: bool, dir: &str, cfg: &Cfg, nkeys: usize, trace: Option<&str>) -> Reopened {
+    let r = match fs.materialize(dir, model_b) {
+        Ok(()) => reopen_image(exe, dir, cfg, nkeys, trace),
+        Err(e) => Reopened { mach: Some(format!("materialize: {}", e)), code: None, text: String::new(), d9: false, batches: None, ops: vec![] },
+    };
+    let _ = std::fs::remove_dir_all(dir);
+    r
+}
+
+/// `cleanup_orphans` walks a HashSet: the order of its renames into trash/ differs from process to
+/// process.  The renames are independent of each other, so every order is an execution; the crash
+/// points inside such a run are enumerated in name order (keeps the run deterministic per seed).
+fn normalize_orphan_renames(ops: &mut Vec<FsOp>) {
+    let is_trash = |o: &FsOp| matches!(o, FsOp::Rename { from, to } if from.starts_with("sst/") && to.starts_with("trash/"));
+    let mut i = 0;
+    while i < ops.len() {
+        if is_trash(&ops[i]) {
+            let mut j = i;
+            while j < ops.len() && is_trash(&ops[j]) {
+                j += 1;
+            }
+            ops[i..j].sort_by_key(|o| match o {
+                FsOp::Rename { from, .. } => from.clone(),
+                _ => String::new(),
+            });
+            i = j;
+        } else {
+            i += 1;
+        }
+    }
+}
+
+fn rec_str(r: &Reopened) -> String {
+    if r.code != Some(0) {
+        "fail".to_string()
+    } else {
+        r.batches.map(|b| b.to_string()).unwrap_or_else(|| "?".to_string())
+    }
+}
+
+const TRACE_SET: &str = "trace=openat,open,creat,write,pwrite64,fsync,fdatasync,link,linkat,rename,renameat,renameat2,unlink,unlinkat,mkdir,mkdirat,rmdir";
 
 struct Traced {
     ops: Vec<FsOp>,
@@ -468,7 +667,7 @@ fn trace_history_inject(work: &str, root: &str, cfg: &Cfg, ops: &[Op], inject: O
     let _ = std::fs::remove_file(&marker);
     let exe = std::env::current_exe().map_err(|e| e.to_string())?;
     let mut cmd = std::process::Command::new("strace");
-    cmd.args(["-f", "-o", &trace, "-s", "4000000", "-xx", "-y", "-e", "trace=openat,open,creat,write,pwrite64,fsync,fdatasync,link,linkat,rename,renameat,renameat2,unlink,unlinkat,mkdir,mkdirat,rmdir"]);
+    cmd.args(["-f", "-o", &trace, "-s", "4000000", "-xx", "-y", "-e", TRACE_SET]);
     if let Some((call, err, k)) = inject {
         cmd.args(["-e", &format!("inject={}:error={}:when={}", call, err, k)]);
     }
@@ -539,29 +738,46 @@ pub fn run(args: &Args) {
             }
         }
         // ---- correspondence: canonical trace vs the model's op list
-        if let Some((clients, _)) = model_clients(&traced.report) {
-            let canon = canonical(&traced.ops);
+        // acks of non-write ops are not model events: keep acks of writes only
+        let write_idx: Vec<usize> = ops.iter().enumerate().filter(|(_, o)| matches!(o, Op::Put(..) | Op::Del(..) | Op::Batch(..))).map(|(i, _)| i).collect();
+        let writes_before = |n: usize| write_idx.iter().filter(|&&i| i < n).count();
+        let model: Option<String> = model_clients(&traced.report).map(|x| x.0);
+        // the model's operation list with, per operation, the trace operation it stands for
+        let mtoks: Vec<(String, usize)> = model_tokens(canonical_idx(&traced.ops, true), &write_idx);
+        let opened_raw = traced.ops.iter().position(|o| matches!(o, FsOp::Mark { text } if text == "opened")).unwrap_or(usize::MAX);
+        // a crash before / a failure of trace operation `raw` = before / of model operation number …
+        let model_index = |raw: usize| mtoks.iter().filter(|t| t.1 < raw).count();
+        if let Some(clients) = &model {
             let req = format!("crash ops {}", clients);
-            // acks of non-write ops are not model events: keep acks of writes only
-            let write_idx: Vec<usize> = ops.iter().enumerate().filter(|(_, o)| matches!(o, Op::Put(..) | Op::Del(..) | Op::Batch(..))).map(|(i, _)| i).collect();
-            let obs: Vec<String> = canon
-                .into_iter()
-                .filter_map(|t| match t.strip_prefix("ack:") {
-                    Some(k) => {
-                        let k: usize = k.parse().ok()?;
-                        if write_idx.contains(&k) {
-                            Some("ack".to_string())
-                        } else {
-                            None
-                        }
-                    }
-                    None => Some(t),
-                })
-                .collect();
+            let obs: Vec<String> = mtoks.iter().map(|t| t.0.clone()).collect();
             rec.count("trace_vs_model");
             rec.corr(&req, &obs.join(" "), Some(fnv(req.as_bytes())));
         } else {
             rec.count("trace_not_modelled(multi-entry batch, gc, or compaction inside a flush)");
+        }
+        // ---- every compaction that writes files (merges and garbage collections, single- and
+        // multi-entry histories alike): the calls between the operation's begin and end markers
+        // against `StoreFault.compactOps` for the same input and output files
+        for l in traced.report.lines() {
+            let p: Vec<&str> = l.split_whitespace().collect();
+            if p.len() < 3 || p[0] != "op" || p[2] != "compact" {
+                continue;
+            }
+            let (Some(k), Some(ins), Some(outs)) = (p[1].parse::<usize>().ok(), p.iter().find_map(|x| x.strip_prefix("in=")), p.iter().find_map(|x| x.strip_prefix("out="))) else { continue };
+            let is_gc = p.iter().any(|x| *x == "gc=1");
+            let b = traced.ops.iter().position(|o| matches!(o, FsOp::Mark { text } if *text == format!("b {}", k)));
+            let e = traced.ops.iter().position(|o| matches!(o, FsOp::Mark { text } if *text == format!("a {}", k)));
+            let (Some(b), Some(e)) = (b, e) else { continue };
+            let nin: Option<usize> = p.iter().find_map(|x| x.strip_prefix("nin=")).and_then(|x| x.parse().ok());
+            if nin != Some(ins.split(';').filter(|x| !x.is_empty()).count()) || ins.contains("999999") || outs.contains("999999") {
+                rec.count("compaction_blocks.not_compared(an output has the name of an input)");
+                continue;
+            }
+            let toks: Vec<String> = canonical_idx(&traced.ops[b..e], false).into_iter().map(|t| t.0).filter(|t| !t.starts_with("ack:")).collect();
+            let dash = |x: &str| if x.is_empty() { "-".to_string() } else { x.to_string() };
+            let req = format!("crash gcblock {} {}", dash(ins), dash(outs));
+            rec.count(if is_gc { "compaction_blocks.garbage_collecting" } else { "compaction_blocks.merging" });
+            rec.corr(&req, &toks.join(" "), Some(fnv(format!("{} {}", h, req).as_bytes())));
         }
         // ---- crash points
         let mutating: Vec<usize> = traced.ops.iter().enumerate().filter(|(_, o)| o.mutating()).map(|(i, _)| i).collect();
@@ -579,10 +795,35 @@ pub fn run(args: &Args) {
             }
             points = keep;
         }
+        // crash images whose recovery is itself traced, compared with the model and crashed again:
+        // a seeded sample of the points after the initial open
+        let n_second = if args.thorough { 30 } else { 8 };
+        let mut second: std::collections::BTreeSet<(usize, bool)> = Default::default();
+        {
+            let mut cands: Vec<(usize, bool)> = points.iter().filter(|&&p| (if p < mutating.len() { mutating[p] } else { traced.ops.len() }) > opened_raw).flat_map(|&p| [(p, false), (p, true)]).collect();
+            let mut r2 = Rng::for_case(args.seed, 103, h);
+            r2.shuffle(&mut cands);
+            for c in cands.into_iter().take(n_second) {
+                second.insert(c);
+            }
+        }
         let mut fs = SimFs::default();
         let mut applied = 0usize; // index into traced.ops
         let mut seen_images: std::collections::BTreeSet<(bool, u64, usize, Option<usize>)> = Default::default();
-        let img = format!("{}/image", work);
+        let mut seen_second: std::collections::BTreeSet<(u64, usize, Option<usize>)> = Default::default();
+        let d9class = "reopen-with-key-and-timestamp-overlapping-files".to_string();
+        struct Job1 {
+            p: usize,
+            model_b: bool,
+            upto: usize,
+            done: usize,
+            inflight: Option<usize>,
+            next_call: String,
+            hsh: u64,
+            again: bool,
+            fs: SimFs,
+        }
+        let mut jobs1: Vec<Job1> = vec![];
         for &p in &points {
             // state before the p-th mutating call = all ops before its index
             let upto = if p < mutating.len() { mutating[p] } else { traced.ops.len() };
@@ -610,54 +851,124 @@ pub fn run(args: &Args) {
             let next_call = if p < mutating.len() { format!("{:?}", traced.ops[mutating[p]]).chars().take(90).collect::<String>() } else { "end".to_string() };
             for model_b in [false, true] {
                 // image fingerprint: skip images already reopened with the same expectations
-                let mut hsh: u64 = 0xcbf29ce484222325;
-                for (path, &i) in &fs.files {
-                    hsh = hsh.wrapping_mul(0x100000001b3) ^ fnv(path.as_bytes());
-                    let ino = &fs.inodes[i];
-                    let c: &[u8] = if model_b { ino.durable.as_deref().unwrap_or(&[]) } else { &ino.data };
-                    hsh = hsh.wrapping_mul(0x100000001b3) ^ fnv(c);
-                }
-                for d in &fs.dirs {
-                    hsh = hsh.wrapping_mul(0x100000001b3) ^ fnv(d.as_bytes());
-                }
-                if !seen_images.insert((model_b, hsh, done, inflight)) {
+                let hsh = fs.fingerprint(model_b);
+                let again = second.contains(&(p, model_b));
+                if !seen_images.insert((model_b, hsh, done, inflight)) && !again {
                     rec.count("crash_points_with_image_already_explored");
                     continue;
                 }
-                if let Err(e) = fs.materialize(&img, model_b) {
-                    rec.case("# image", "#", Verdict::Fail { class: "machinery".into(), detail: format!("materialize: {}", e) }, None);
-                    continue;
-                }
-                let out = std::process::Command::new(&exe).args(["C02reopen", &img, &cfg_arg(&cfg), &nkeys.to_string()]).output();
-                let (code, text, d9) = match out {
-                    Ok(o) => (o.status.code(), String::from_utf8_lossy(&o.stdout).to_string(), String::from_utf8_lossy(&o.stderr).contains("D9TRIGGER")),
-                    Err(e) => (None, format!("spawn: {}", e), false),
-                };
-                let d9class = "reopen-with-key-and-timestamp-overlapping-files".to_string();
-                let want_a = expected_state(&ops, done, nkeys);
-                let want_b = inflight.map(|k| expected_state(&ops, k + 1, nkeys));
-                let tag = format!("h{} crash-before-call {} ({}) model {} acked {} inflight {:?}", h, p, next_call, if model_b { "b" } else { "a" }, done, inflight);
-                let verdict = if code != Some(0) {
-                    Verdict::Fail { class: if d9 { d9class.clone() } else { "reopen-fails-after-crash".into() }, detail: format!("{} -> exit {:?} {}", tag, code, text.lines().last().unwrap_or("").chars().take(300).collect::<String>()) }
-                } else if text == want_a || Some(&text) == want_b.as_ref() {
-                    Verdict::Ok
-                } else {
-                    let diff = text.lines().zip(want_a.lines()).find(|(a, b)| a != b).map(|(a, b)| format!("got `{}` want `{}`", a.chars().take(120).collect::<String>(), b.chars().take(120).collect::<String>())).unwrap_or_default();
-                    Verdict::Fail { class: if d9 { d9class.clone() } else { "acked-write-lost-or-partial-or-invented".into() }, detail: format!("{} {}", tag, diff) }
-                };
-                rec.count(if model_b { "images.model_b" } else { "images.model_a" });
-                if inflight.is_some() {
-                    rec.count("images.with_operation_in_flight");
-                }
-                if Some(&text) == want_b.as_ref() && want_b.as_ref() != Some(&want_a) {
-                    rec.count("images.inflight_operation_survived");
-                }
-                let fp = fnv(format!("{}:{}:{}:{}", h, p, model_b, hsh).as_bytes());
-                rec.case(&format!("# {}", tag), "#", verdict, Some(fp));
+                jobs1.push(Job1 { p, model_b, upto, done, inflight, next_call: next_call.clone(), hsh, again, fs: fs.clone() });
             }
         }
+        // every image is written and reopened in its own directory, a few at a time
+        let res1: Vec<Reopened> = {
+            let refs: Vec<&Job1> = jobs1.iter().collect();
+            par_map(refs, |j, job| {
+                let rt = format!("{}/rt.{}", work, j);
+                reopen_simfs(&exe, &job.fs, job.model_b, &format!("{}/img.{}", work, j), &cfg, nkeys, if job.again { Some(&rt) } else { None })
+            })
+        };
+        for (job, r1) in jobs1.iter().zip(res1.iter()) {
+            let (p, model_b, upto, done, inflight) = (job.p, job.model_b, job.upto, job.done, job.inflight);
+            let want_a = expected_state(&ops, done, nkeys);
+            let want_b = inflight.map(|k| expected_state(&ops, k + 1, nkeys));
+            // the oracle on one reopened image
+            let judge = |r: &Reopened, tag: &str| -> Verdict {
+                if let Some(m) = &r.mach {
+                    Verdict::Fail { class: "machinery".into(), detail: m.clone() }
+                } else if r.code != Some(0) {
+                    Verdict::Fail { class: if r.d9 { d9class.clone() } else { "reopen-fails-after-crash".into() }, detail: format!("{} -> exit {:?} {}", tag, r.code, r.text.lines().last().unwrap_or("").chars().take(300).collect::<String>()) }
+                } else if r.text == want_a || Some(&r.text) == want_b.as_ref() {
+                    Verdict::Ok
+                } else {
+                    let diff = r.text.lines().zip(want_a.lines()).find(|(a, b)| a != b).map(|(a, b)| format!("got `{}` want `{}`", a.chars().take(120).collect::<String>(), b.chars().take(120).collect::<String>())).unwrap_or_default();
+                    Verdict::Fail { class: if r.d9 { d9class.clone() } else { "acked-write-lost-or-partial-or-invented".into() }, detail: format!("{} {}", tag, diff) }
+                }
+            };
+            let tag = format!("h{} crash-before-call {} ({}) model {} acked {} inflight {:?}", h, p, job.next_call, if model_b { "b" } else { "a" }, done, inflight);
+            let verdict = judge(r1, &tag);
+            rec.count(if model_b { "images.model_b" } else { "images.model_a" });
+            if inflight.is_some() {
+                rec.count("images.with_operation_in_flight");
+            }
+            if Some(&r1.text) == want_b.as_ref() && want_b.as_ref() != Some(&want_a) {
+                rec.count("images.inflight_operation_survived");
+            }
+            let fp = fnv(format!("{}:{}:{}:{}", h, p, model_b, job.hsh).as_bytes());
+            if !job.again {
+                rec.case(&format!("# {}", tag), "#", verdict, Some(fp));
+                continue;
+            }
+            // ---- the recovery itself: its operation list against the model's, and a second crash inside it
+            let mb = if model_b { "b" } else { "a" };
+            let n_model = model_index(upto);
+            let rcanon = canonical_idx(&r1.ops, false);
+            let rtoks: Vec<String> = rcanon.iter().map(|t| t.0.clone()).collect();
+            match &model {
+                Some(clients) => {
+                    rec.count("recovery_vs_model");
+                    rec.case(&format!("crash recover {} {} {}", mb, n_model, clients), &format!("{} rec={}", join_toks(&rtoks), rec_str(r1)), verdict, Some(fp));
+                }
+                None => rec.case(&format!("# {} (recovery traced)", tag), "#", verdict, Some(fp)),
+            }
+            rec.count("recoveries_traced");
+            struct Job2 {
+                q: usize,
+                model_b2: bool,
+                hsh2: u64,
+                next2: String,
+                m_model: usize,
+                fs2: SimFs,
+            }
+            let mut jobs2: Vec<Job2> = vec![];
+            let mut fs2 = job.fs.settled(model_b);
+            let mut2: Vec<usize> = r1.ops.iter().enumerate().filter(|(_, o)| o.mutating()).map(|(i, _)| i).collect();
+            let mut applied2 = 0usize;
+            for q in 0..=mut2.len() {
+                let upto2 = if q < mut2.len() { mut2[q] } else { r1.ops.len() };
+                while applied2 < upto2 {
+                    fs2.apply(&r1.ops[applied2]);
+                    applied2 += 1;
+                }
+                let next2 = if q < mut2.len() { format!("{:?}", r1.ops[mut2[q]]).chars().take(70).collect::<String>() } else { "end".to_string() };
+                let m_model = rcanon.iter().filter(|t| t.1 < upto2).count();
+                for model_b2 in [false, true] {
+                    let hsh2 = fs2.fingerprint(model_b2);
+                    if !seen_second.insert((hsh2, done, inflight)) {
+                        rec.count("second_crash_points_with_image_already_explored");
+                        continue;
+                    }
+                    jobs2.push(Job2 { q, model_b2, hsh2, next2: next2.clone(), m_model, fs2: fs2.clone() });
+                }
+            }
+            let res2: Vec<Reopened> = {
+                let refs: Vec<&Job2> = jobs2.iter().collect();
+                let traced2 = model.is_some();
+                par_map(refs, |j, jb| {
+                    let rt = format!("{}/rt2.{}", work, j);
+                    reopen_simfs(&exe, &jb.fs2, jb.model_b2, &format!("{}/img2.{}", work, j), &cfg, nkeys, if traced2 { Some(&rt) } else { None })
+                })
+            };
+            for (jb, r2) in jobs2.iter().zip(res2.iter()) {
+                let mb2 = if jb.model_b2 { "b" } else { "a" };
+                let tag2 = format!("{} ; recovery crashed before its call {} ({}) model {}", tag, jb.q, jb.next2, mb2);
+                let v2 = judge(r2, &tag2);
+                rec.count("images.second_crash_during_recovery");
+                let fp2 = fnv(format!("{}:{}:{}:{}:{}", h, p, model_b, jb.q, jb.hsh2).as_bytes());
+                match &model {
+                    Some(clients) => {
+                        rec.count("second_recovery_vs_model");
+                        let toks2: Vec<String> = canonical_idx(&r2.ops, false).into_iter().map(|t| t.0).collect();
+                        rec.case(&format!("crash recover2 {} {} {} {} {}", mb, n_model, mb2, jb.m_model, clients), &format!("{} rec={}", join_toks(&toks2), rec_str(r2)), v2, Some(fp2));
+                    }
+                    None => rec.case(&format!("# {}", tag2), "#", v2, Some(fp2)),
+                }
+            }
+        }
+        drop(jobs1);
+        drop(res1);
         // ---- single injected faults (EIO / ENOSPC) at one of the history's system calls
-        let n_faults = if args.thorough { 40 } else { 6 };
+        let n_faults = if args.thorough { 60 } else { 10 };
         let mut choices: Vec<(&str, &str, usize)> = vec![];
         for (call, err) in INJECTABLE {
             for k in 1..=*traced.counts.get(*call).unwrap_or(&0) {
@@ -665,10 +976,37 @@ pub fn run(args: &Args) {
             }
         }
         rng.shuffle(&mut choices);
-        for (call, err, k) in choices.into_iter().take(n_faults) {
-            let froot = format!("{}/fstore", work);
-            let _ = std::fs::remove_dir_all(&froot);
-            let t = match trace_history_inject(&work, &froot, &cfg, &ops, Some((call, err, k))) {
+        let chosen: Vec<(&str, &str, usize)> = choices.into_iter().take(n_faults).collect();
+        struct FaultRun {
+            t: Result<Traced, String>,
+            ra: Option<Reopened>,
+            rb: Option<Reopened>,
+        }
+        // every fault run has its own directory: the traced run with the injected failure, the
+        // reopen of what it left, and the reopen of the model (b) image of its own trace
+        let fres: Vec<FaultRun> = par_map(chosen.clone(), |j, (call, err, k)| {
+            let fw = format!("{}/f.{}", work, j);
+            let _ = std::fs::create_dir_all(&fw);
+            let froot = format!("{}/fstore", fw);
+            let t = trace_history_inject(&fw, &froot, &cfg, &ops, Some((call, err, k)));
+            let (ra, rb) = match &t {
+                Ok(t) if t.ops.iter().any(|o| matches!(o, FsOp::Fault { .. })) => {
+                    let ra = reopen_image(&exe, &froot, &cfg, nkeys, None);
+                    let mut ffs = SimFs::default();
+                    for o in &t.ops {
+                        ffs.apply(o);
+                    }
+                    let rb = reopen_simfs(&exe, &ffs, true, &format!("{}/img", fw), &cfg, nkeys, None);
+                    (Some(ra), Some(rb))
+                }
+                _ => (None, None),
+            };
+            let _ = std::fs::remove_dir_all(&fw);
+            FaultRun { t, ra, rb }
+        });
+        for ((call, err, k), fr) in chosen.into_iter().zip(fres.into_iter()) {
+            let _ = call;
+            let t = match fr.t {
                 Ok(t) => t,
                 Err(e) => {
                     rec.case("# fault run", "#", Verdict::Fail { class: "machinery".into(), detail: e }, None);
@@ -677,10 +1015,10 @@ pub fn run(args: &Args) {
             };
             // which client operation was in progress when the fault hit, and what each op returned
             let mut begun: Option<usize> = None;
-            let mut hit: Option<(Option<usize>, String, String)> = None;
+            let mut hit: Option<(Option<usize>, String, String, usize)> = None;
             let mut acked: Vec<usize> = vec![];
             let mut errored: Vec<usize> = vec![];
-            for o in &t.ops {
+            for (ri, o) in t.ops.iter().enumerate() {
                 match o {
                     FsOp::Mark { text } => {
                         if let Some(x) = text.strip_prefix("b ") {
@@ -699,13 +1037,13 @@ pub fn run(args: &Args) {
                     }
                     FsOp::Fault { call, path } => {
                         if hit.is_none() {
-                            hit = Some((begun, call.clone(), path.clone()));
+                            hit = Some((begun, call.clone(), path.clone(), ri));
                         }
                     }
                     _ => {}
                 }
             }
-            let Some((during, fcall, fpath)) = hit else {
+            let Some((during, fcall, fpath, fault_ri)) = hit else {
                 rec.count("faults.not_reached(call issued outside the store root or after the run)");
                 continue;
             };
@@ -720,38 +1058,90 @@ pub fn run(args: &Args) {
                     bad.push(format!("operation {} ({}) returned success although {} on its log failed with {}", j, ops[j].render(), fcall, err));
                 }
             }
-            // (2) reopen without faults: every acknowledged write present, the failed one all or nothing
-            let out = std::process::Command::new(&exe).args(["C02reopen", &froot, &cfg_arg(&cfg), &nkeys.to_string()]).output();
-            let (code, text, d9) = match out {
-                Ok(o) => (o.status.code(), String::from_utf8_lossy(&o.stdout).to_string(), String::from_utf8_lossy(&o.stderr).contains("D9TRIGGER")),
-                Err(e) => (None, format!("spawn: {}", e), false),
-            };
+            // (2) reopen without faults: every acknowledged write present, the failed one all or nothing —
+            // after the process exit (the directory as it is) and after a power loss on top of it
+            // (model b image of the fault run's own trace)
             // the acknowledged operations are a prefix 0..n (the child stops at the first error)
             let n = acked.len();
             let want_a = expected_state(&ops, n, nkeys);
             let want_b = if n < ops.len() { Some(expected_state(&ops, n + 1, nkeys)) } else { None };
-            if code != Some(0) {
-                bad.push(format!("reopen after the fault failed: exit {:?} {}", code, text.lines().last().unwrap_or("").chars().take(200).collect::<String>()));
-            } else if text != want_a && Some(&text) != want_b.as_ref() {
-                bad.push("after reopen the contents are neither the acknowledged operations nor those plus the failed one".to_string());
+            let (Some(ra), rb) = (fr.ra, fr.rb) else { continue };
+            let rb = rb.filter(|r| r.mach.is_none());
+            let mut d9 = ra.d9;
+            for (r, what) in [(Some(&ra), "after the fault"), (rb.as_ref(), "after the fault and a power loss")] {
+                let Some(r) = r else { continue };
+                d9 |= r.d9;
+                if r.code != Some(0) {
+                    bad.push(format!("reopen {} failed: exit {:?} {}", what, r.code, r.text.lines().last().unwrap_or("").chars().take(200).collect::<String>()));
+                } else if r.text != want_a && Some(&r.text) != want_b.as_ref() {
+                    bad.push(format!("reopened {}, the contents are neither the acknowledged operations nor those plus the failed one", what));
+                }
             }
             rec.count(&format!("faults.{}.{}", fcall, err));
-            if !errored.is_empty() || crashed {
+            let is_surfaced = !errored.is_empty() || crashed;
+            if is_surfaced {
                 rec.count("faults.surfaced_as_error");
             } else {
                 rec.count("faults.absorbed_without_error(e.g. a failed unlink of a temporary)");
             }
-            let class = if d9 { "reopen-with-key-and-timestamp-overlapping-files".to_string() } else { "io-error-acknowledged-or-state-damaged".to_string() };
+            let class = if d9 { d9class.clone() } else { "io-error-acknowledged-or-state-damaged".to_string() };
             let v = if bad.is_empty() { Verdict::Ok } else { Verdict::Fail { class, detail: format!("{} {}", tag, bad.join("; ")) } };
-            rec.case(&format!("# {}", tag), "#", v, Some(fnv(tag.as_bytes())));
-            let _ = std::fs::remove_dir_all(&froot);
+            // ---- the same failure in the model: which operation of the model's list failed
+            // (the calls before the failed one are those of the fault-free run: the run is deterministic)
+            let pre_mut: Vec<&FsOp> = t.ops[..fault_ri].iter().filter(|o| o.mutating()).collect();
+            let m = pre_mut.len();
+            let same_prefix = m <= mutating.len() && pre_mut.iter().zip(mutating.iter()).all(|(a, &i)| format!("{:?}", a) == format!("{:?}", traced.ops[i]));
+            let failed_raw = mutating.get(m).copied();
+            let kind_ok = failed_raw
+                .map(|r| match (&traced.ops[r], fcall.as_str()) {
+                    (FsOp::Write { path, .. }, "write") => *path == fpath,
+                    (FsOp::Sync { path }, "fdatasync") | (FsOp::Sync { path }, "fsync") => *path == fpath,
+                    (FsOp::Link { .. }, "linkat") | (FsOp::Rename { .. }, "rename") | (FsOp::Unlink { .. }, "unlink") | (FsOp::Unlink { .. }, "unlinkat") | (FsOp::Rmdir { .. }, "unlinkat") | (FsOp::Mkdir { .. }, "mkdir") => true,
+                    _ => false,
+                })
+                .unwrap_or(false);
+            let in_verify = during.map(|j| matches!(ops.get(j), Some(Op::Verify))).unwrap_or(false);
+            let fp = Some(fnv(tag.as_bytes()));
+            let usable = model.is_some() && same_prefix && kind_ok && !in_verify && failed_raw.map(|r| r > opened_raw).unwrap_or(false) && !fpath.starts_with('/');
+            if !usable {
+                rec.count(if model.is_none() {
+                    "faults.oracle_only(history not modelled)"
+                } else if in_verify {
+                    "faults.oracle_only(during a verifier pass)"
+                } else if !failed_raw.map(|r| r > opened_raw).unwrap_or(false) {
+                    "faults.oracle_only(during the initial open)"
+                } else {
+                    "faults.oracle_only(failed call is not a successful call of the fault-free run)"
+                });
+                rec.case(&format!("# {}", tag), "#", v, fp);
+            } else {
+                let clients = model.as_ref().unwrap();
+                let r = failed_raw.unwrap();
+                let i = model_index(r);
+                let on_model = mtoks.iter().find(|t| t.1 == r).map(|t| t.0.clone());
+                // what the run with the fault did after the failed call, in the model's alphabet
+                let post: Vec<String> = model_tokens(canonical_idx(&t.ops, true), &write_idx).into_iter().filter(|x| x.1 > fault_ri && x.0 != "FAULT").map(|x| x.0).collect();
+                let acked_writes = acked.iter().filter(|j| write_idx.contains(j)).count();
+                let _ = writes_before;
+                let obs = format!(
+                    "{} {} acked={} post={} recA={} recB={}",
+                    on_model.clone().unwrap_or_else(|| "-".to_string()),
+                    if is_surfaced { "surfaced" } else { "absorbed" },
+                    acked_writes,
+                    join_toks(&post),
+                    rec_str(&ra),
+                    rb.as_ref().map(rec_str).unwrap_or_else(|| "?".to_string())
+                );
+                rec.count(if on_model.is_some() { "fault_vs_model.on_a_model_operation" } else { "fault_vs_model.between_model_operations" });
+                rec.case(&format!("crash {} {} {}", if on_model.is_some() { "fault" } else { "faultx" }, i, clients), &obs, v, fp);
+            }
         }
         rec.add("syscalls_mutating", mutating.len() as u64);
         rec.count("histories");
         let _ = std::fs::remove_dir_all(&work);
     }
     rec.finish(
-        "seeded single-stepped store histories (puts, dels, multi-key batches in a quarter of them, flushes, compaction steps, reopens, verifier passes) run once under strace; a crash is simulated before every file-system-mutating system call (write, fsync/fdatasync, link, rename, unlink, mkdir, rmdir, create) and after the last one, under (a) completed calls persist and (b) unsynced file bytes are lost; every distinct image is reopened by the real code in a fresh process and read back (point reads of every key and a full scan); non-trivial = every distinct (history, crash point, model, image) reopened",
+        "seeded single-stepped store histories (puts, dels, multi-key batches in a quarter of them, flushes, compaction steps, reopens, verifier passes) run once under strace; a crash is simulated before every file-system-mutating system call (write, fsync/fdatasync, link, rename, unlink, mkdir, rmdir, create) and after the last one, under (a) completed calls persist and (b) unsynced file bytes are lost; every distinct image is reopened by the real code in a fresh process and read back (point reads of every key and a full scan); for a seeded sample of the images the reopen is traced, compared with the model's recovery of the same crash point, crashed before each of ITS mutating calls (both models again), reopened and compared once more; a seeded sample of single injected faults per history is replayed in the model at the same operation (failed call, surfaced/absorbed, acknowledgements, calls after the failure, batches found by the reopen after the process exit and after a power loss on top); non-trivial = every distinct (history, crash point, model, image) reopened, every distinct (history, fault), every compared operation list",
         &[],
     );
 }
